@@ -99,6 +99,7 @@ var registry = map[string]propDef{
 	"C12":  {"other", props.C12},
 	"C13":  {"other", props.C13},
 	"C13p": {"other", props.C13parse},
+	"C13s": {"other", props.C13sizes},
 	"C17":  {"other", props.C17},
 	"C17p": {"other", props.C17pool},
 	"C17h": {"other", props.C17handle},
